@@ -19,6 +19,7 @@
  */
 #include "rpc.h"
 
+#include <limits>
 #include <tbox/base/log.h>
 #include <tbox/base/json.hpp>
 #include <tbox/base/wrapped_recorder.h>
@@ -78,11 +79,21 @@ void Rpc::request(const std::string &method, const Json &js_params, RequestCallb
     RECORD_SCOPE();
     int id = 0;
     if (cb) {
-        id = ++id_alloc_;
+        id = allocRequestId();
         request_callback_[id] = std::move(cb);
         request_timeout_.add(id);
     }
     proto_->sendRequest(id, method, js_params);
+}
+
+int Rpc::allocRequestId()
+{
+    //! 在 [1, INT_MAX] 内循环分配，跳过仍在等待回复的 id（++id_alloc_ 在 INT_MAX 处溢出，
+    //! 之后还会分配到 0 —— 即通知 —— 以及覆盖未完成请求的回调）
+    do {
+        id_alloc_ = (id_alloc_ < std::numeric_limits<int>::max()) ? id_alloc_ + 1 : 1;
+    } while (request_callback_.find(id_alloc_) != request_callback_.end());
+    return id_alloc_;
 }
 
 void Rpc::request(const std::string &method, RequestCallback &&cb)
